@@ -641,6 +641,153 @@ func spreadSlice(name string, server bool) *vx.Scenario {
 	return sc
 }
 
+// serverWireRecovery: per-emitter order ACROSS A CONNECTION STATE RECOVERY (ServerConnectionStateRecovery enabled).
+// One goroutine emits its events one after another on the server socket it was given: event 0 reaches the peer
+// (its offset is what the peer presents later), then the peer's connection goes away (transport close, a
+// recoverable reason), events 1..missed are emitted while nobody is connected (they go to the session log), and
+// the remaining events are emitted WHILE the peer comes back on a new connection with its pid and offset: the
+// server restores the session, replays what was missed and connects the recovered socket, and the emitter's
+// live events race with exactly that. Only this last phase is explored. What the peer sees on its two connections,
+// one after the other, is parsed by the reference decoder (every packet contiguous, replayed ones included) and
+// the events of the emitter must not go backwards: an event never arrives after a later one of the same emitter.
+//
+// The oracle asks for the ORDER only. Whether an event emitted during the hand-over is delivered exactly once
+// (neither replayed and sent live, nor missed by both) is a statement about the recovery itself, not about C02;
+// duplicates and gaps are visible in the outcome string and are not judged here.
+func serverWireRecovery(name string, atts []int, missed int, bound int) *vx.Scenario {
+	sc := &vx.Scenario{Name: name, Bound: bound, Horizon: 10 * time.Second}
+	sc.Body = func(e *vsched.Exec) func() vx.Result {
+		vsched.SetExploring(false) // first session, disconnection and the missed events run on the default schedule
+		scfg := &sio.ServerConfig{}
+		scfg.ServerConnectionStateRecovery.Enabled = true
+		srv := sio.NewServer(scfg)
+		var v vsched.Var
+		var sock sio.ServerSocket
+		srv.OnConnection(func(s sio.ServerSocket) {
+			v.Do(func() {
+				if sock == nil {
+					sock = s // the emitter keeps the socket of the first session
+				}
+			})
+		})
+		f1 := vrig.NewFakeEIO(srv, "c02-first")
+		f1.ConnectNS("/")
+		vsched.Await(func() bool { return sock != nil })
+		phase, done := 0, 0
+		pid, offset := "", ""
+		var f2 *vrig.FakeEIO
+		// The peer's second connection is made by a thread of its own that exists BEFORE the emitter: the server handles
+		// a CONNECT packet on a goroutine it spawns, a descendant of this thread, and the scheduler's default order is
+		// the order of creation, ancestors first. So the default schedule lets the server restore and connect the session
+		// and the emitter's live events come after it; every instruction of the restoration is then ONE preemption away
+		// from the emitter (and "the emitter first" is one deviation away too), instead of two with the CONNECT fed by
+		// the main thread (the emitter would run first by default, VERIF_DUMP_TRACES: hand-over to the CONNECT goroutine,
+		// then back to the emitter).
+		vsched.GoQuiet("returning-peer", func() {
+			vsched.Await(func() bool { return phase >= 2 })
+			auth, _ := json.Marshal(map[string]string{"pid": pid, "offset": offset})
+			f2.In("0" + string(auth))
+		})
+		vsched.GoQuiet("emitter0", func() {
+			for seq, natt := range atts {
+				if seq >= 1 {
+					vsched.Await(func() bool { return phase >= 1 }) // the peer is away
+				}
+				if seq >= 1+missed {
+					vsched.Await(func() bool { return phase >= 2 }) // the peer is coming back
+				}
+				sock.Emit("e", emitArgs(0, seq, natt)...)
+				v.Do(func() { done = seq + 1 })
+			}
+		})
+		vsched.Await(func() bool { return done >= 1 })
+		vrig.Settle(time.Second) // event 0 is on the wire
+		pid, offset = recoveryCredentials(f1)
+		if pid == "" || offset == "" {
+			// no private session id / no offset on the wire: nothing to recover with (reported as a harness error)
+			vsched.Await(func() bool { return false })
+		}
+		f1.TransportClose("transport close")
+		vrig.Settle(time.Second)
+		v.Do(func() { phase = 1 })
+		vsched.Await(func() bool { return done >= 1+missed })
+		vrig.Settle(time.Second)
+		f2 = vrig.NewFakeEIO(srv, "c02-second")
+		f2.SlowSend = true
+		vsched.SetExploring(true)
+		v.Do(func() { phase = 2 }) // the peer comes back and the emitter goes on, at once
+		return func() vx.Result {
+			var r vx.Result
+			var frames []wireFrame
+			for _, fr := range f1.Frames {
+				frames = append(frames, wireFrame{fr.Binary, []byte(fr.Data)})
+			}
+			recovered := false
+			for _, fr := range f2.Frames {
+				frames = append(frames, wireFrame{fr.Binary, []byte(fr.Data)})
+				if !fr.Binary && strings.HasPrefix(fr.Data, "0{") && strings.Contains(fr.Data, `"pid":"`+pid+`"`) {
+					recovered = true
+				}
+			}
+			evs, err := refDecode(frames)
+			if err != nil {
+				r.Violate("server wire (connection state recovery): frames of one packet not contiguous / stream not decodable", "%v", err)
+				return r
+			}
+			var seqs []int
+			for _, ev := range evs {
+				if ev.emitter != 0 || ev.seq < 0 || ev.seq >= len(atts) {
+					continue
+				}
+				if ev.attachments != atts[ev.seq] {
+					r.Violate("server wire (connection state recovery): wrong attachment count", "seq %d: %d attachments, emitted %d", ev.seq, ev.attachments, atts[ev.seq])
+				}
+				seqs = append(seqs, ev.seq)
+			}
+			r.Outcome = fmt.Sprintf("recovered=%v seqs=%v", recovered, seqs)
+			for i := 1; i < len(seqs); i++ {
+				if seqs[i] < seqs[i-1] {
+					r.Violate("server wire (connection state recovery): events of one emitter out of order (an event reaches the peer after a later one of the same emitter)",
+						"the emitter emitted 0..%d one after another (0 before the disconnection, %d while the peer was away, the rest while it came back); the peer saw %v: %d after %d",
+						len(atts)-1, missed, seqs, seqs[i], seqs[i-1])
+					break
+				}
+			}
+			return r
+		}
+	}
+	return sc
+}
+
+// recoveryCredentials reads what a client needs to ask for its session again off the wire of its first connection: the
+// private session id of the CONNECT reply and the offset (the extra last argument) of the last event it got.
+func recoveryCredentials(f *vrig.FakeEIO) (pid, offset string) {
+	for _, t := range f.Texts() {
+		switch {
+		case strings.HasPrefix(t, "0{"):
+			var info struct {
+				PID string `json:"pid"`
+			}
+			if json.Unmarshal([]byte(t[1:]), &info) == nil {
+				pid = info.PID
+			}
+		case strings.HasPrefix(t, "2") || strings.HasPrefix(t, "5"):
+			j := strings.IndexByte(t, '[')
+			if j < 0 {
+				continue
+			}
+			var arr []any
+			if json.Unmarshal([]byte(t[j:]), &arr) != nil || len(arr) == 0 {
+				continue
+			}
+			if s, ok := arr[len(arr)-1].(string); ok {
+				offset = s
+			}
+		}
+	}
+	return pid, offset
+}
+
 // ---- (b) application level: handler-entry order
 
 func orderKey(side string, sites []string) string {
@@ -789,6 +936,8 @@ func scenarios(tier string) []*vx.Scenario {
 		clientWireConnecting("client-wire-connecting/2x2", [][]int{{0, 1}, {1, 0}}, bw-2),
 		clientWireFlushRace("client-wire-connecting/emitter-meets-the-CONNECT-reply/1x3", [][]int{{0, 1, 0}}, bw-1),
 		clientWireFlushRace("client-wire-connecting/emitter-meets-the-CONNECT-reply/2x2", [][]int{{0, 1}, {1, 0}}, bw-2),
+		serverWireRecovery("server-wire-recovery/1-delivered-2-missed-1-live-while-the-peer-recovers", []int{0, 0, 0, 0}, 2, bw-2),
+		serverWireRecovery("server-wire-recovery/1-delivered-1-missed-binary-2-live-mixed-while-the-peer-recovers", []int{0, 2, 1, 0}, 1, bw-2),
 		spreadSlice("spread-argument-slice-emitted-twice/client", false),
 		spreadSlice("spread-argument-slice-emitted-twice/server", true),
 		serverApp("server-app/2-separate-frames", 2, false, ba),
@@ -816,7 +965,7 @@ func main() {
 		Property: "C02",
 		Level:    "model_checking",
 		Rule: "deviation-bounded exploration of 2-3 concurrent emitters (1-2 events each, 0-2 attachments) on one connection: server side over a harness-implemented eio socket (slow Send), client side over the in-process polling link " +
-			"(POST bodies decoded as Engine.IO payloads), and the server side again over the real Engine.IO polling transport with a slow poller (batches parked in the transport between polls while further flushes happen; GET bodies decoded; up to 4 attachments per event); the wire is parsed by a reference decoder written from the v5 protocol. Plus handler-entry order of 2-3 events emitted in a row. Non-trivial = executions with >= 1 deviation",
+			"(POST bodies decoded as Engine.IO payloads), and the server side again over the real Engine.IO polling transport with a slow poller (batches parked in the transport between polls while further flushes happen; GET bodies decoded; up to 4 attachments per event); the wire is parsed by a reference decoder written from the v5 protocol. Plus one emitter across a connection state recovery (server with ServerConnectionStateRecovery over the harness-implemented eio socket: 1 event delivered, 1-2 missed while the peer is away, 1-2 emitted while the peer comes back with its pid and offset; text and binary; only the order is judged, the events never go backwards on the peer's two connections). Plus handler-entry order of 2-3 events emitted in a row. Non-trivial = executions with >= 1 deviation",
 		Scenarios: scenarios,
 		Budget: func(tier string) time.Duration {
 			if tier == "thorough" {
